@@ -1,5 +1,5 @@
 (* C18: extraction of the word-level container model (ExtrOcamlBasic only). *)
 Require Extraction.
 Require Import ExtrOcamlBasic.
-From Gatery Require Import BvsDefs.
-Extraction "c18_model.ml" step mk_empty parseBitVector printState formatState formatRange.
+From Gatery Require Import BvsDefs BvsSpec.
+Extraction "c18_model.ml" step mk_empty parseBitVector printState formatState formatRange ops_ok.
